@@ -1,6 +1,7 @@
 """C08 -- untrusted input never crashes, overflows the stack or exhausts memory (crash / allocation / recursion clauses).
 Also provides the shared census runner used by C02 (fail-safe scope) and C18 (key parsers)."""
 import json, os
+import re
 from ..core import *
 from .. import census
 
@@ -75,6 +76,40 @@ def load_table(name):
 SCOPE_FLOORS = {'c08': 250, 'c02': 230, 'c18': 20}
 
 
+def moved_into_helper(prog, body, site, table, anywhere):
+    """an unreviewed site whose operands are parameters of a private helper: substitute, at every exactly resolved call site, the rendering of the
+    arguments for the parameter names; the site is accepted when every resulting (caller | expression) is a reviewed table entry (any occurrence).
+    This is what an "extract function" refactoring of a reviewed expression produces."""
+    if body.kind == 'Closure' or body.impl_trait or body.vis == 'pub' or body.arg_count == 0:
+        return None
+    names = {body.lname(p): p for p in range(1, body.arg_count + 1)}
+    if not any(re.search(r'(?<![A-Za-z0-9_.])%s(?![A-Za-z0-9_])' % re.escape(n), site.desc) for n in names):
+        return None
+    sites = []
+    for b2 in prog.crates[body.pkg].bodies:
+        for blk in b2.calls():
+            cands, exact = resolve_call(prog, b2, blk.term)
+            if exact and len(cands) == 1 and cands[0].key == body.key:
+                sites.append((b2, blk))
+    if not sites:
+        return None
+    reasons = []
+    for b2, blk in sites:
+        desc = site.desc
+        for n, pidx in names.items():
+            if pidx - 1 >= len(blk.term.args):
+                return None
+            ar = census.describe(b2, blk.term.args[pidx - 1])
+            ar = re.sub(r'^&(mut )?', '', ar)
+            desc = re.sub(r'(?<![A-Za-z0-9_.])%s(?![A-Za-z0-9_])' % re.escape(n), lambda m: ar, desc)
+        base = '%s|%s' % (b2.nkey, desc)
+        ent = anywhere.get(base) or next((e for k2, e in table.items() if k2.rsplit('#', 1)[0] == base), None)
+        if ent is None:
+            return None
+        reasons.append('%s: %s' % (b2.name, ent['reason']))
+    return ' / '.join(reasons)[:300]
+
+
 def run_census(prog, rep, which, rule):
     """PANIC census for a scope; returns (scope, taint)"""
     roots = entry_points(prog, which)
@@ -86,6 +121,7 @@ def run_census(prog, rep, which, rule):
         rep.fn(b)
     taint = census.Taint(prog, scope, param_sources(prog, which, roots))
     table = {e['key']: e for e in load_table('panic_sites.json')['sites']}
+    anywhere = {e['key'].rsplit('#', 1)[0]: e for e in table.values() if e.get('anywhere')}
     n_sites = n_dis = n_tab = n_info = 0
     hist = collections.Counter()
     seen_keys = set()
@@ -100,9 +136,15 @@ def run_census(prog, rep, which, rule):
                 hist[why.split(':')[0].split(' ')[0]] += 1
                 rep.ob(rule, True, key, 'discharged: ' + why, s.loc(), sample='discharged: ' + why if n_dis <= 6 else None)
                 continue
-            if s.key in table:
+            ent = table.get(s.key) or anywhere.get(s.key.rsplit('#', 1)[0])
+            if ent is not None:
                 n_tab += 1
-                rep.ob(rule, True, key, 'reviewed: ' + table[s.key]['reason'], s.loc(), sample='reviewed: ' + table[s.key]['reason'] if n_tab <= 6 else None)
+                rep.ob(rule, True, key, 'reviewed: ' + ent['reason'], s.loc(), sample='reviewed: ' + ent['reason'] if n_tab <= 6 else None)
+                continue
+            moved = moved_into_helper(prog, body, s, table, anywhere)
+            if moved:
+                n_tab += 1
+                rep.ob(rule, True, key, 'reviewed at the call sites (expression moved into a private helper): ' + moved, s.loc())
                 continue
             if taint.site_tainted(s):
                 rep.ob(rule, False, key, 'potential panic site %s in %s is reachable from untrusted input, takes a value derived from the input, and is neither provably safe nor reviewed'
